@@ -8,6 +8,7 @@
 -/
 import Model.FrameState
 import Lemmas.FrameState
+import Lemmas.Colnames
 
 namespace DI.C01
 
@@ -59,5 +60,46 @@ theorem key_attribute_coherent (nm : Names) (s : State) (h : Inv nm s) (k : Stri
 /-- attribute access never returns the placeholder class. -/
 theorem placeholder_never_leaks (nm : Names) (s : State) (h : Inv nm s) (k : String) :
     lookupAttr nm s k ≠ .placeholderLeak := no_placeholder_leak nm s h k
+
+/-! ### colnames assignment -/
+
+/-- colnames assignment renames positionally: assigning a list of distinct names of the right length
+    renames column `k` to `ns[k]` for every `k`, keeps the order, every column's slot (its length) and the
+    row count, and the frame stays well-formed. -/
+theorem colnames_positional (nm : Names) (s : State) (ns : List String) (h : Inv nm s)
+    (hnd : ns.Nodup) (hlen : ns.length = s.names.length) :
+    ∃ s', step nm s (.colnames ns) = some s' ∧
+      s'.cols = List.zipWith (fun k c => (k, c.2)) ns s.cols ∧ s'.names = ns ∧ s'.nrow = s.nrow ∧
+      (∀ k (h1 : k < ns.length) (h2 : k < s.cols.length) (h3 : k < s'.cols.length),
+        s'.cols[k] = (ns[k], (s.cols[k]).2)) ∧ Inv nm s' :=
+  colnames_positional_spec nm s ns h hnd hlen
+
+/-- the general behaviour (`zip` truncates to the shorter of both lists): the renamed columns — the
+    first `min` of both lengths — are popped and re-appended in order under their new names, each keeping
+    its slot; columns beyond a too-short list keep their names but now come FIRST.  Needs: the used new
+    names are distinct and none of them is the name of a column that is not renamed. -/
+theorem colnames_general (nm : Names) (s : State) (ns : List String) (h : Inv nm s)
+    (hnd : (ns.take s.names.length).Nodup)
+    (hfresh : ∀ k ∈ ns.take s.names.length, k ∉ s.names.drop ns.length) :
+    ∃ s', step nm s (.colnames ns) = some s' ∧
+      s'.cols = s.cols.drop ns.length ++ List.zipWith (fun k c => (k, c.2)) ns s.cols ∧ Inv nm s' :=
+  colnames_spec nm s ns h hnd hfresh
+
+/-- colnames assignment is never rejected on a well-formed frame, whatever list is assigned (wrong
+    length or repeated names included): the model has no rejection branch reachable from `Inv`. -/
+theorem colnames_never_rejected (nm : Names) (s : State) (ns : List String) (h : Inv nm s) :
+    ∃ s', step nm s (.colnames ns) = some s' := colnames_total nm s ns h
+
+/-- a swap plus a fresh name. -/
+example : step ⟨fun _ => true, fun _ => false⟩ ⟨[("a", 2), ("b", 2), ("c", 2)], ["a", "b", "c"]⟩
+    (.colnames ["b", "a", "z"]) = some ⟨[("b", 2), ("a", 2), ("z", 2)], ["b", "a", "z"]⟩ := by decide
+
+/-- a too-short list: the renamed column moves behind the untouched ones. -/
+example : (step ⟨fun _ => true, fun _ => false⟩ ⟨[("a", 2), ("b", 2), ("c", 2)], ["a", "b", "c"]⟩
+    (.colnames ["x"])).map (·.cols) = some [("b", 2), ("c", 2), ("x", 2)] := by decide
+
+/-- repeated new names are not rejected: the later column overwrites the earlier one. -/
+example : (step ⟨fun _ => true, fun _ => false⟩ ⟨[("a", 2), ("b", 2)], ["a", "b"]⟩
+    (.colnames ["x", "x"])).map (·.cols) = some [("x", 2)] := by decide
 
 end DI.C01
